@@ -1,11 +1,80 @@
 import EpdVerif.Drivers.Dsl
 import EpdVerif.Gen.Epd2in66b
-/-! model of `src/epd2in66b/mod.rs` (STUB: programs not yet transcribed) -/
+/-! model of `src/epd2in66b/mod.rs` -/
 namespace EpdVerif.Drivers.Epd2in66b
 open EpdVerif
 open EpdVerif.Gen.Epd2in66b
 
-def prog (_f : Feat) (_d : DState) : Op → Option (List Act)
+/-- the private `wait_until_idle(delay)`: literal polarity `false` -/
+def W : Act := .wait false
+
+def hwReset : List Act := [.reset 20000 2000, W]
+
+def swReset : List Act := [.cmd Command.Reset, W]
+
+def dataEntryMode (row sign : UInt8) : List Act :=
+  cmdData Command.DataEntryMode [row ||| sign]
+
+def setDisplayWindow (xs ys xe ye : Nat) : List Act :=
+  cmdData Command.SetXAddressRange [u8 ((xs >>> 3) &&& 0x1f), u8 ((xe >>> 3) &&& 0x1f)] ++
+  cmdData Command.SetYAddressRange
+    [u8 (ys &&& 0xff), u8 ((ys >>> 8) &&& 0x01), u8 (ye &&& 0xff), u8 ((ye >>> 8) &&& 0x01)]
+
+def updateControl1 (redMode bwMode source : UInt8) : List Act :=
+  cmdData Command.DisplayUpdateControl1 [(redMode <<< 4) ||| bwMode, source]
+
+def setCursor (x y : Nat) : List Act :=
+  cmdData Command.SetXAddressCounter [u8 ((x >>> 3) &&& 0x1f)] ++
+  cmdData Command.SetYAddressCounter [u8 (y &&& 0xff), u8 ((y >>> 8) &&& 0x01)]
+
+def blackWhitePattern (w h phase : UInt8) : List Act :=
+  cmdData Command.BlackWhiteRAMTestPattern [phase ||| h ||| w] ++ [W]
+
+def redPattern (w h phase : UInt8) : List Act :=
+  cmdData Command.RedRAMTestPattern [phase ||| h ||| w] ++ [W]
+
+def init : List Act :=
+  hwReset ++ swReset ++
+  dataEntryMode DataEntryRow.XMinor DataEntrySign.IncYIncX ++
+  setDisplayWindow 0 0 (WIDTH - 1) (HEIGHT - 1) ++
+  updateControl1 WriteMode.Normal WriteMode.Normal OutputSource.S8ToS167 ++
+  setCursor 0 0
+
+def updateAchromatic (b : Bytes) : List Act :=
+  setCursor 0 0 ++ [.cmd Command.WriteBlackWhiteRAM, .data b]
+
+def updateChromatic (c : Bytes) : List Act :=
+  setCursor 0 0 ++ [.cmd Command.WriteRedRAM, .data c]
+
+def updateFrame (b : Bytes) : List Act :=
+  setCursor 0 0 ++ updateAchromatic b ++ redPattern PatW.W160 PatH.H296 StartWith.Zero
+
+def displayFrame : List Act := [.cmd Command.MasterActivation, W]
+
+def clearFrame (d : DState) : List Act :=
+  let (white, red) :=
+    if d.bg = 0 then (StartWith.Zero, StartWith.Zero)
+    else if d.bg = 1 then (StartWith.One, StartWith.Zero)
+    else (StartWith.Zero, StartWith.One)
+  blackWhitePattern PatW.W160 PatH.H296 white ++ redPattern PatW.W160 PatH.H296 red
+
+def prog (_f : Feat) (d : DState) : Op → Option (List Act)
+  | .new => some init
+  | .wake => some init
+  | .sleep => some (cmdData Command.DeepSleepMode [DeepSleep.SleepLosingRAM])
+  | .upd b => some (updateFrame b)
+  | .part b x y w h =>
+    some (setDisplayWindow x y (x + w) (y + h) ++ setCursor x y ++ updateAchromatic b ++
+      setDisplayWindow 0 0 WIDTH HEIGHT)
+  | .disp => some displayFrame
+  | .updisp b => some (updateFrame b ++ displayFrame)
+  | .clear => some (clearFrame d)
+  | .bg c => some [.upd (fun d => { d with bg := c })]
+  | .lut _ => some []
+  | .wait => some [W]
+  | .color b c => some (updateAchromatic b ++ updateChromatic c)
+  | .achro b => some (updateAchromatic b)
+  | .chro c => some (updateChromatic c)
   | _ => none
 
 def panel (f : Feat) : Panel :=
